@@ -30,6 +30,7 @@ CONSTANTS
   RenderFails, \* PT: the environment may make templates fail to render
   CacheMisses, \* TRUE: the informer cache may miss referenced resources (Pipeline)
   VerBumps,    \* TRUE: the environment may move the desired resources to another apiVersion of their kind
+  Forges,      \* TRUE: the desired resources' bodies may carry a stale composition-resource-name annotation
   FailKinds    \* ways the pipeline can fail (Pipeline mode): subset of {"fnerror","fatal","reqloop","badinput","nocreds"}
 
 Ids == 1..MaxObjs
@@ -42,6 +43,7 @@ VARIABLES
   store,    \* id -> [st, ctrl, rname]   st: "none" | "live" | "deleting"; ctrl: "xr" | "foreign" | "nobody"
   refs,     \* set of ids in the XR's spec.resourceRefs
   want,     \* names the environment currently wants (function output / template names)
+  deco,     \* decorations of the desired resources' bodies the environment switched on: subset of {"ver", "forge"}
   rfail,    \* PT: templates that currently fail to render (a Required from-XR patch whose source field is missing)
   nextId,   \* next id GenerateName will produce
   pc,
@@ -59,8 +61,8 @@ VARIABLES
   bad,      \* ghost: names of violated step properties (kept as state so that TLC reports them as invariants)
   hist
 
-vars == <<store, refs, want, rfail, nextId, pc, obs, des, wantR, todo, recs, faults, envs, pfail, startS, cmiss, startR, gcd, quiet, steady, bad, hist>>
-view == <<store, refs, want, rfail, nextId, pc, obs, des, wantR, todo, recs, faults, envs, pfail, startS, cmiss, startR, gcd, quiet, steady, bad>>
+vars == <<store, refs, want, rfail, deco, nextId, pc, obs, des, wantR, todo, recs, faults, envs, pfail, startS, cmiss, startR, gcd, quiet, steady, bad, hist>>
+view == <<store, refs, want, rfail, deco, nextId, pc, obs, des, wantR, todo, recs, faults, envs, pfail, startS, cmiss, startR, gcd, quiet, steady, bad>>
 
 Absent == [st |-> "none", ctrl |-> "nobody", rname |-> "-"]
 Exists(o) == store[o].st # "none"
@@ -86,7 +88,7 @@ Init ==
                ELSE IF ForeignAt = "name" /\ o = FixedId THEN [st |-> "live", ctrl |-> "foreign", rname |-> "-"]
                ELSE Absent]
   /\ refs = (IF ForeignAt = "ref" THEN {1} ELSE {})
-  /\ want \in Wants /\ rfail = {}
+  /\ want \in Wants /\ rfail = {} /\ deco = {}
   /\ nextId = (IF ForeignAt = "ref" THEN 2 ELSE 1)
   /\ pc = "idle" /\ obs = [n \in Names |-> None] /\ des = [n \in Names |-> None] /\ wantR = {}
   /\ todo = <<>> /\ recs = 0 /\ faults = 0 /\ envs = 0 /\ pfail = ""
@@ -101,24 +103,31 @@ EnvUnch == /\ envs' = envs + 1 /\ quiet' = FALSE /\ steady' = FALSE
            /\ UNCHANGED <<refs, nextId, pc, obs, des, wantR, todo, recs, faults, pfail, startS, cmiss, startR, gcd, bad>>
 ChangeWant == /\ EnvOK /\ \E w \in Wants : w # want /\ want' = w
                  /\ Log([t |-> "env", k |-> "want", o |-> "", f |-> "", names |-> w])
-              /\ UNCHANGED <<store, rfail>> /\ EnvUnch
+              /\ UNCHANGED <<store, rfail, deco>> /\ EnvUnch
 \* PT: the XR field a template's Required patch reads (dis)appears: the template cannot be rendered for now
 ChangeRFail == /\ Mode = "PT" /\ RenderFails /\ EnvOK /\ \E r \in SUBSET Names : r # rfail /\ rfail' = r
                   /\ Log([t |-> "env", k |-> "rfail", o |-> "", f |-> "", names |-> r])
-               /\ UNCHANGED <<store, want>> /\ EnvUnch
+               /\ UNCHANGED <<store, want, deco>> /\ EnvUnch
 \* the desired resources move to another served apiVersion of the same kind (the function / the template is upgraded):
 \* same kind, same names - nothing about which resources exist changes, every existing one is updated in place
-ChangeVer == /\ VerBumps /\ EnvOK /\ Log(H("env", "ver", "", "")) /\ UNCHANGED <<store, want, rfail>> /\ EnvUnch
+Toggle(d) == deco' = IF d \in deco THEN deco \ {d} ELSE deco \cup {d}
+ChangeVer == /\ VerBumps /\ EnvOK /\ Toggle("ver") /\ Log(H("env", "ver", "", "")) /\ UNCHANGED <<store, want, rfail>> /\ EnvUnch
+\* the bodies the author supplies (function output / template base) start or stop carrying a
+\* crossplane.io/composition-resource-name annotation that names ANOTHER resource (YAML pasted from a live composed
+\* resource, a body built by copying another one). RenderComposedResourceMetadata stamps Crossplane's own value over it:
+\* nothing about which resources exist, or under which name they are associated, changes
+\* (added after the seeded changes C01-m5 / C03-m6 - "keep an annotation that is already there" - were missed)
+ChangeForge == /\ Forges /\ EnvOK /\ Toggle("forge") /\ Log(H("env", "forge", "", "")) /\ UNCHANGED <<store, want, rfail>> /\ EnvUnch
 \* a user (or a provider's finalizer) deletes a composed resource: it is gone, or stays with a deletionTimestamp
 UserDelete(o) == /\ EnvOK /\ Live(o) /\ store[o].ctrl = "xr"
                  /\ \E s \in {"deleting", "none"} :
                       /\ store' = [store EXCEPT ![o] = IF s = "none" THEN Absent ELSE [@ EXCEPT !.st = "deleting"]]
                       /\ Log(H("env", IF s = "none" THEN "remove" ELSE "markdeleted", IdStr(o), ""))
-                 /\ UNCHANGED <<want, rfail>> /\ EnvUnch
+                 /\ UNCHANGED <<want, rfail, deco>> /\ EnvUnch
 Finalize(o) == /\ EnvOK /\ store[o].st = "deleting"
                /\ store' = [store EXCEPT ![o] = Absent] /\ Log(H("env", "finalize", IdStr(o), ""))
-               /\ UNCHANGED <<want, rfail>> /\ EnvUnch
-Env == ChangeWant \/ ChangeRFail \/ ChangeVer \/ \E o \in Ids : UserDelete(o) \/ Finalize(o)
+               /\ UNCHANGED <<want, rfail, deco>> /\ EnvUnch
+Env == ChangeWant \/ ChangeRFail \/ ChangeVer \/ ChangeForge \/ \E o \in Ids : UserDelete(o) \/ Finalize(o)
 
 ----------------------------------------------------------------------------
 (* Reconcile plumbing.                                                     *)
@@ -159,7 +168,7 @@ Start == /\ pc = "idle" /\ recs < MaxRecs
                /\ pfail' = "" /\ startS' = store /\ cmiss' = FALSE /\ startR' = refs /\ gcd' = {}
                /\ quiet' = TRUE /\ UNCHANGED <<recs, steady>>
             \/ /\ (Fail("get", "xr") \/ Dies("get", "xr")) /\ UNCHANGED <<obs, des, wantR, pfail, startS, cmiss, startR, gcd>>
-         /\ UNCHANGED <<store, refs, want, rfail, nextId, envs, bad>>
+         /\ UNCHANGED <<store, refs, want, rfail, deco, nextId, envs, bad>>
 
 \* ---- observation (Pipeline: ObserveComposedResources; PT: AssociateTemplates reads each reference)
 \* A referenced resource that is gone is skipped; one controlled by someone else is ignored (Pipeline)
@@ -171,7 +180,7 @@ Observe == /\ pc = "observe" /\ todo # <<>>
                      THEN obs' = [obs EXCEPT ![store[o].rname] = o] ELSE UNCHANGED obs)
                  /\ todo' = Tail(todo) /\ UNCHANGED <<pc, pfail>>
               \/ /\ NoEffect("get", IdStr(o)) /\ UNCHANGED obs
-           /\ UNCHANGED <<store, refs, want, rfail, nextId, des, wantR, envs, startS, cmiss, startR, gcd, bad>>
+           /\ UNCHANGED <<store, refs, want, rfail, deco, nextId, des, wantR, envs, startS, cmiss, startR, gcd, bad>>
 \* Pipeline: the informer cache has not seen the referenced resource yet (it answers NotFound although the resource
 \* exists); the observer reads it from the API server instead.  If that read fails the observation fails - the resource
 \* is NOT taken for gone.
@@ -187,9 +196,9 @@ ObserveMiss == /\ Mode = "Pipeline" /\ CacheMisses /\ pc = "observe" /\ todo # <
                         /\ hist' = hist \o <<miss, H("call", "uget", IdStr(o), "error")>>
                         /\ pc' = "status" /\ todo' = <<>> /\ pfail' = "err" /\ quiet' = FALSE /\ UNCHANGED <<recs, steady, obs>>
                /\ cmiss' = TRUE
-               /\ UNCHANGED <<store, refs, want, rfail, nextId, des, wantR, envs, startS, startR, gcd, bad>>
+               /\ UNCHANGED <<store, refs, want, rfail, deco, nextId, des, wantR, envs, startS, startR, gcd, bad>>
 ObserveDone == /\ pc = "observe" /\ todo = <<>> /\ pc' = "desire"
-               /\ UNCHANGED <<store, refs, want, rfail, nextId, obs, des, wantR, todo, recs, faults, envs, pfail, startS, cmiss, startR, gcd, quiet, steady, bad, hist>>
+               /\ UNCHANGED <<store, refs, want, rfail, deco, nextId, obs, des, wantR, todo, recs, faults, envs, pfail, startS, cmiss, startR, gcd, quiet, steady, bad, hist>>
 
 \* ---- what is desired in this reconcile
 \* Pipeline: run the functions (the environment decides the outcome). A failing pipeline ends Compose
@@ -205,7 +214,7 @@ Desire == /\ pc = "desire"
                      /\ pfail' = fk
                 /\ wantR' = want /\ UNCHANGED <<des, todo>>
                 /\ pc' = "status" /\ Stay      \* the reconciler still writes the XR's status (Synced=False)
-          /\ UNCHANGED <<store, refs, want, rfail, nextId, obs, recs, envs, startS, cmiss, startR, gcd, bad>>
+          /\ UNCHANGED <<store, refs, want, rfail, deco, nextId, obs, recs, envs, startS, cmiss, startR, gcd, bad>>
 
 \* ---- allocate names (GenerateName = a Get that must answer NotFound)
 NewId == IF nextId <= MaxObjs THEN nextId ELSE None
@@ -222,20 +231,20 @@ Alloc == /\ pc = "alloc" /\ todo # <<>>
                     \/ /\ Mode = "PT" /\ Faulted("get", IdStr(NewId), "error") /\ nextId' = nextId + 1
                        /\ todo' = Tail(todo) /\ quiet' = FALSE /\ UNCHANGED <<des, pc, pfail, recs, steady>>
                     \/ /\ Mode = "PT" /\ Dies("get", IdStr(NewId)) /\ nextId' = nextId + 1 /\ UNCHANGED des
-         /\ UNCHANGED <<store, refs, want, rfail, obs, wantR, envs, startS, cmiss, startR, gcd, bad>>
+         /\ UNCHANGED <<store, refs, want, rfail, deco, obs, wantR, envs, startS, cmiss, startR, gcd, bad>>
 GcList == SetToSeq({obs[n] : n \in {m \in Names : obs[m] # None /\ m \notin wantR}})
 PipeAllocExit == /\ Mode = "Pipeline" /\ pc = "alloc" /\ todo = <<>>
                  /\ pc' = "gcstrip" /\ todo' = GcList
-                 /\ UNCHANGED <<store, refs, want, rfail, nextId, obs, des, wantR, recs, faults, envs, pfail, startS, cmiss, startR, gcd, quiet, steady, bad, hist>>
+                 /\ UNCHANGED <<store, refs, want, rfail, deco, nextId, obs, des, wantR, recs, faults, envs, pfail, startS, cmiss, startR, gcd, quiet, steady, bad, hist>>
 \* PT allocates after garbage collection and then persists the references
 PtAllocExit == /\ Mode = "PT" /\ pc = "alloc" /\ todo = <<>> /\ pc' = "refs"
-               /\ UNCHANGED <<store, refs, want, rfail, nextId, obs, des, wantR, todo, recs, faults, envs, pfail, startS, cmiss, startR, gcd, quiet, steady, bad, hist>>
+               /\ UNCHANGED <<store, refs, want, rfail, deco, nextId, obs, des, wantR, todo, recs, faults, envs, pfail, startS, cmiss, startR, gcd, quiet, steady, bad, hist>>
 
 \* ---- garbage collection: strip the composition labels (Update), then Delete
 Gone(o) == [store EXCEPT ![o] = Absent]
 GcStrip == /\ pc = "gcstrip" /\ todo # <<>>
            /\ LET o == todo[1] IN
-              IF ~Mine(o) /\ Mode = "Pipeline"      \* (only after GcGrab: what was foreign at observation is not collected at all)
+              IF ~Mine(o) /\ startS[o].ctrl # "foreign"   \* (only after GcGrab: the collector still holds the copy it read, which names the XR)
               THEN /\ Ok("update", IdStr(o)) /\ pc' = "status" /\ todo' = <<>> /\ pfail' = "err" /\ Stay    \* Conflict
                    /\ UNCHANGED <<store, bad, gcd>>
               ELSE IF ~Mine(o) THEN ErrC /\ UNCHANGED <<store, bad, gcd>>       \* controller mismatch: error, nothing touched
@@ -244,24 +253,26 @@ GcStrip == /\ pc = "gcstrip" /\ todo # <<>>
                    \/ /\ NoEffect("update", IdStr(o)) /\ UNCHANGED <<store, bad, gcd>>
                    \/ /\ Crash("update", IdStr(o)) /\ UNCHANGED <<store, gcd>>
                       /\ (IF Exists(o) THEN NoteDelete(o) ELSE UNCHANGED bad)
-           /\ UNCHANGED <<refs, want, rfail, nextId, obs, des, wantR, envs, startS, cmiss, startR>>
+           /\ UNCHANGED <<refs, want, rfail, deco, nextId, obs, des, wantR, envs, startS, cmiss, startR>>
 \* the environment in the middle of a collection: the resource the collector is about to strip is removed out of band
 \* (a user deletes it, its provider finalises it) - the collector's Update / Delete then answer NotFound, which it ignores.
-\* (Pipeline only: the P&T associator interleaves its reads with the collection, the replay cannot place the step there.)
-GcVanish == /\ Mode = "Pipeline" /\ pc = "gcstrip" /\ todo # <<>> /\ envs < MaxEnv
+\* (The P&T associator interleaves its reads with the collection - Get o1, Update o1, Delete o1, Get o2 ... - while this model
+\* collects after all reads: the replay places the step in front of the Update of its object, past the reads of other objects
+\* that the model has earlier - replay.Aligner.PastEnv.)
+GcVanish == /\ pc = "gcstrip" /\ todo # <<>> /\ envs < MaxEnv
             /\ LET o == todo[1] IN
                /\ Exists(o) /\ Mine(o)
                /\ store' = Gone(o) /\ Log(H("env", "remove", IdStr(o), ""))
             /\ envs' = envs + 1 /\ quiet' = FALSE
-            /\ UNCHANGED <<refs, want, rfail, nextId, pc, obs, des, wantR, todo, recs, faults, pfail, startS, cmiss, startR, gcd, steady, bad>>
+            /\ UNCHANGED <<refs, want, rfail, deco, nextId, pc, obs, des, wantR, todo, recs, faults, pfail, startS, cmiss, startR, gcd, steady, bad>>
 \* ... or another owner makes itself its controller (the collector still holds the copy it observed, which names the XR):
 \* the collector's Update carries the observed resourceVersion and is refused (Conflict) - composition fails, nothing is deleted
-GcGrab == /\ Mode = "Pipeline" /\ pc = "gcstrip" /\ todo # <<>> /\ envs < MaxEnv
+GcGrab == /\ pc = "gcstrip" /\ todo # <<>> /\ envs < MaxEnv
           /\ LET o == todo[1] IN
              /\ Live(o) /\ store[o].ctrl = "xr"
              /\ store' = [store EXCEPT ![o].ctrl = "foreign"] /\ Log(H("env", "grab", IdStr(o), ""))
           /\ envs' = envs + 1 /\ quiet' = FALSE
-          /\ UNCHANGED <<refs, want, rfail, nextId, pc, obs, des, wantR, todo, recs, faults, pfail, startS, cmiss, startR, gcd, steady, bad>>
+          /\ UNCHANGED <<refs, want, rfail, deco, nextId, pc, obs, des, wantR, todo, recs, faults, pfail, startS, cmiss, startR, gcd, steady, bad>>
 GcDelete == /\ pc = "gcdelete"
             /\ LET o == todo[1] IN
                \/ /\ Ok("delete", IdStr(o)) /\ store' = Gone(o) /\ todo' = Tail(todo) /\ pc' = "gcstrip" /\ Stay /\ UNCHANGED pfail
@@ -271,15 +282,15 @@ GcDelete == /\ pc = "gcdelete"
                \/ /\ Crash("delete", IdStr(o)) /\ store' = Gone(o)
                   /\ gcd' = (IF Exists(o) THEN gcd \cup {o} ELSE gcd)
                   /\ (IF Exists(o) THEN NoteDelete(o) ELSE UNCHANGED bad)
-            /\ UNCHANGED <<refs, want, rfail, nextId, obs, des, wantR, envs, startS, cmiss, startR>>
+            /\ UNCHANGED <<refs, want, rfail, deco, nextId, obs, des, wantR, envs, startS, cmiss, startR>>
 GcDone == /\ pc = "gcstrip" /\ todo = <<>>
           /\ pc' = (IF Mode = "PT" THEN "alloc" ELSE "refs")
           /\ todo' = (IF Mode = "PT" THEN NamesSeq({n \in wantR : obs[n] = None}) ELSE <<>>)
-          /\ UNCHANGED <<store, refs, want, rfail, nextId, obs, des, wantR, recs, faults, envs, pfail, startS, cmiss, startR, gcd, quiet, steady, bad, hist>>
+          /\ UNCHANGED <<store, refs, want, rfail, deco, nextId, obs, des, wantR, recs, faults, envs, pfail, startS, cmiss, startR, gcd, quiet, steady, bad, hist>>
 \* PT: the associator collects referenced resources whose template vanished while it reads the references;
 \* modelled after the reads, before names are allocated (no write happens in between)
 PtGc == /\ pc = "ptgc" /\ pc' = "gcstrip" /\ todo' = GcList
-        /\ UNCHANGED <<store, refs, want, rfail, nextId, obs, des, wantR, recs, faults, envs, pfail, startS, cmiss, startR, gcd, quiet, steady, bad, hist>>
+        /\ UNCHANGED <<store, refs, want, rfail, deco, nextId, obs, des, wantR, recs, faults, envs, pfail, startS, cmiss, startR, gcd, quiet, steady, bad, hist>>
 
 \* ---- persist the references: all desired ids (Pipeline: SSA patch of spec.resourceRefs; PT: Update of the XR)
 NewRefs == {des[n] : n \in wantR} \ {None}
@@ -289,7 +300,7 @@ PersistRefs == /\ pc = "refs"
                      /\ bad' = bad \cup (IF Steady /\ NewRefs # refs THEN {"Quiescent"} ELSE {})
                   \/ /\ NoEffect(RefsVerb, "xr") /\ UNCHANGED <<refs, bad>>
                   \/ /\ Crash(RefsVerb, "xr") /\ refs' = NewRefs /\ UNCHANGED bad
-               /\ UNCHANGED <<store, want, rfail, nextId, obs, des, wantR, envs, startS, cmiss, startR, gcd>>
+               /\ UNCHANGED <<store, want, rfail, deco, nextId, obs, des, wantR, envs, startS, cmiss, startR, gcd>>
 
 \* ---- apply every desired resource. Pipeline: one server-side apply, refused as Invalid when another controller
 \* owns the object (the resource is reported unsynced, composition continues).  PT: Get, then Create or Patch,
@@ -305,7 +316,7 @@ ApplyGet == /\ Mode = "PT" /\ pc = "apply" /\ todo # <<>>
                   /\ (IF Exists(o) /\ ~Mine(o) THEN pc' = "status" /\ todo' = <<>> /\ pfail' = "err" /\ Stay
                       ELSE pc' = "applyw" /\ UNCHANGED <<todo, pfail>> /\ Stay)
                \/ NoEffect("get", IdStr(o))
-            /\ UNCHANGED <<store, refs, want, rfail, nextId, obs, des, wantR, envs, startS, cmiss, startR, gcd, bad>>
+            /\ UNCHANGED <<store, refs, want, rfail, deco, nextId, obs, des, wantR, envs, startS, cmiss, startR, gcd, bad>>
 ApplyW == /\ ((Mode = "PT" /\ pc = "applyw") \/ (Mode = "Pipeline" /\ pc = "apply" /\ todo # <<>>))
           /\ LET n == todo[1]
                  o == des[n] IN
@@ -316,9 +327,9 @@ ApplyW == /\ ((Mode = "PT" /\ pc = "applyw") \/ (Mode = "Pipeline" /\ pc = "appl
                   \/ /\ NoEffect(ApplyVerb(o), IdStr(o)) /\ UNCHANGED <<store, bad>>
                   \/ /\ Crash(ApplyVerb(o), IdStr(o)) /\ store' = Applied(n)
                      /\ (IF Changes(n) THEN NoteWrite(o) ELSE UNCHANGED bad)
-          /\ UNCHANGED <<refs, want, rfail, nextId, obs, des, wantR, envs, startS, cmiss, startR, gcd>>
+          /\ UNCHANGED <<refs, want, rfail, deco, nextId, obs, des, wantR, envs, startS, cmiss, startR, gcd>>
 ApplyDone == /\ pc = "apply" /\ todo = <<>> /\ pc' = "xrstatus"
-             /\ UNCHANGED <<store, refs, want, rfail, nextId, obs, des, wantR, todo, recs, faults, envs, pfail, startS, cmiss, startR, gcd, quiet, steady, bad, hist>>
+             /\ UNCHANGED <<store, refs, want, rfail, deco, nextId, obs, des, wantR, todo, recs, faults, envs, pfail, startS, cmiss, startR, gcd, quiet, steady, bad, hist>>
 
 \* ---- the composer's last write to the XR (Pipeline: SSA status patch; PT: merge patch of the XR),
 \* then the reconciler's Status().Update.  Neither touches composed resources or references.
@@ -327,13 +338,13 @@ XrStatus == /\ pc = "xrstatus"
             /\ \/ /\ Ok(XrVerb, "xr") /\ pc' = "status" /\ UNCHANGED <<todo, pfail>> /\ Stay
                \/ NoEffect(XrVerb, "xr")
                \/ Crash(XrVerb, "xr")
-            /\ UNCHANGED <<store, refs, want, rfail, nextId, obs, des, wantR, envs, startS, cmiss, startR, gcd, bad>>
+            /\ UNCHANGED <<store, refs, want, rfail, deco, nextId, obs, des, wantR, envs, startS, cmiss, startR, gcd, bad>>
 Status == /\ pc = "status"
           /\ \/ /\ Ok("update-status", "xr") /\ End(pfail = "")
              \/ Fail("update-status", "xr")
              \/ Dies("update-status", "xr")
              \/ Crash("update-status", "xr")
-          /\ UNCHANGED <<store, refs, want, rfail, nextId, obs, des, wantR, envs, pfail, startS, cmiss, startR, gcd, bad>>
+          /\ UNCHANGED <<store, refs, want, rfail, deco, nextId, obs, des, wantR, envs, pfail, startS, cmiss, startR, gcd, bad>>
 
 Rec == Start \/ Observe \/ ObserveMiss \/ ObserveDone \/ Desire \/ Alloc \/ PipeAllocExit \/ PtAllocExit \/ PtGc \/ GcStrip \/ GcVanish \/ GcGrab \/ GcDelete \/ GcDone
        \/ PersistRefs \/ ApplyGet \/ ApplyW \/ ApplyDone \/ XrStatus \/ Status
